@@ -1,5 +1,5 @@
 """property id -> rules, explanation of what is / is not decided"""
-from rules import r_coord, r_keyid, r_opcode, r_doaction, r_cancel, r_idle, r_loop, r_traverse, r_repeat, r_chv2, r_wait, r_macro, r_seq, r_override
+from rules import r_coord, r_keyid, r_opcode, r_doaction, r_cancel, r_idle, r_loop, r_traverse, r_repeat, r_chv2, r_wait, r_macro, r_seq, r_override, r_reload
 
 PROPS = {
     "C01": {
@@ -98,6 +98,18 @@ PROPS = {
                        "and the repeat path both run override_keys before any inspection of cur_keys/prev_keys; (R-OVR-RELEASE) "
                        "release-on-activation erases keys taken from the override scratch only under the !is_modifier() guard.",
         "not_decided": "longest-match selection, substitution and restoration — computations over run-time key lists",
+    },
+    "C15": {
+        "rules": [r_reload.run_all],
+        "explanation": "Decides: (R-RELOAD-ATOMIC) every write to kanata's state, MAPPED_KEYS, zippychord and the output options in "
+                       "do_live_reload lies in the region dominated by the Ok arm of cfg::new_from_file, and no `?` exit is "
+                       "reachable after the first such write; (R-RELOAD-FIELDS) each Kanata field whose start-up initialiser "
+                       "derives from the parsed Cfg is assigned from the same Cfg source on reload or is exempt with a reason, "
+                       "new and new_from_str agree, and zippychord is reconfigured on every successful path; (R-RELOAD-GATE) the "
+                       "reload is reachable only through tests of the request flag and of keys-up / 1 s idle, and the flag is "
+                       "cleared first; (R-RELOAD-NOTIFY) both notifications are built and sent, prev_layer comes from the new layout.",
+        "not_decided": "behavioural equivalence of the post-reload state with a fresh instance (dynamic state such as caps-word, "
+                       "scroll states, recorded macros is deliberately retained); file index selection arithmetic",
     },
     "C14": {
         "rules": [r_traverse.run_repeat, r_repeat.run_outputs, r_repeat.run],
